@@ -316,6 +316,8 @@ fn find_function_type(
     use crate::casting::VectorRank;
     let mut casts = Vec::with_capacity(overloads.len());
     for overload in overloads {
+        #[cfg(feature = "verif-hooks")]
+        rssl_text::verif::tick(15);
         let signature = context
             .module
             .function_registry
@@ -1440,6 +1442,8 @@ fn parse_expr_unchecked(
     ast: &ast::Expression,
     context: &mut Context,
 ) -> TyperResult<TypedExpression> {
+    #[cfg(feature = "verif-hooks")]
+    rssl_text::verif::tick(14);
     match *ast {
         ast::Expression::Literal(ref lit) => parse_literal(lit, context),
         ast::Expression::Identifier(ref id) => parse_identifier(id, context),
